@@ -28,7 +28,10 @@ func init() {
 
 var c14Names = []string{"foo", "bar", "controller", "x", "meta", "tags", "created", "émoji", "with space", "a.b", "UPPER", "n1", "alsoKnownAs2", "verificationMethod", "authentication", "@context", "type",
 	// names that differ from the reserved ones by letter case only are ordinary further members
-	"ID", "Id", "iD", "identifier", "ids", "PublicKey", "Service", "AlsoKnownAs", "alsoknownas", "Publickey", "SERVICE"}
+	"ID", "Id", "iD", "identifier", "ids", "PublicKey", "Service", "AlsoKnownAs", "alsoknownas", "Publickey", "SERVICE",
+	// characters that are no metacharacters of JSON or of JSON pointers, merely unusual: DEL, C1, a non-character, unassigned /
+	// private-use / tag characters beyond the basic plane (what Go's %q would spell in a way JSON does not know)
+	"del\u007f", "c1\u0085x", "nc\ufffe", "tag\U000E0020", "pua\U000F0000", "last\U0010FFFF", "sep\u2028"}
 
 func c14Doc(r *fw.Rand) map[string]interface{} {
 	doc := map[string]interface{}{}
@@ -49,6 +52,14 @@ func c14Doc(r *fw.Rand) map[string]interface{} {
 	}
 	for i, n := 0, r.Intn(5); i < n; i++ {
 		doc[fw.Pick(r, c14Names)] = gen.RandValue(r, 2)
+	}
+	if svcs, ok := doc["service"].([]interface{}); ok && r.Chance(1, 4) {
+		// endpoints without a scheme that the validator takes: a rooted path, a network-path reference
+		if sm, ok := svcs[r.Intn(len(svcs))].(map[string]interface{}); ok {
+			if _, plain := sm["serviceEndpoint"].(string); plain {
+				sm["serviceEndpoint"] = fw.Pick(r, []string{"/hub/inbox", "//hub.example.com/inbox", "/"})
+			}
+		}
 	}
 	return doc
 }
